@@ -107,7 +107,7 @@ inductive Ev
   deriving DecidableEq, Repr
 
 structure Cfg where
-  fixD2 : Bool    -- re-read ActiveInformers under c.mx and mark a kind active once its source started
+  fixD2 : Bool    -- re-read ActiveInformers under c.mx; never start in one call a watch that call already started
   fixD3 : Bool    -- collector only considers ComposedResource watches
   fixD12 : Bool   -- StartWatches re-checks under c.mx that the controller was not stopped
   deriving DecidableEq, Repr
@@ -138,8 +138,8 @@ inductive Pc
   | swCRrel (cid : Nat) (ws : List Wid) (a : List Nat) (start : Bool)   -- c.R next: c.mx.RUnlock
   | swCW (cid : Nat) (ws : List Wid) (a : List Nat)          -- –         next: c.mx.Lock
   | swAI2 (cid : Nat) (ws : List Wid)                        -- c.W       next: ActiveInformers (D2 fix)
-  | swGI (cid : Nat) (a : List Nat) (wid : Wid) (rest : List Wid)       -- c.W next: GetInformer
-  | swAH (cid : Nat) (a : List Nat) (wid : Wid) (rest : List Wid) (h : Nat) -- c.W next: AddEventHandler
+  | swGI (cid : Nat) (a : List Nat) (st : List Wid) (wid : Wid) (rest : List Wid)       -- c.W next: GetInformer
+  | swAH (cid : Nat) (a : List Nat) (st : List Wid) (wid : Wid) (rest : List Wid) (h : Nat) -- c.W next: AddEventHandler
   -- StopWatches (also the tail of the collector)
   | xw0 (n : Nat) (ws : List Wid)                            -- –         next: e.mx.RLock
   | xwLU (o : Option Nat) (ws : List Wid)                    -- e.R
@@ -206,7 +206,7 @@ def Pc.held : Pc → Held
   | .idle | .done _ => ⟨.n, none⟩
   | .relE _ | .stNC _ | .spC _ _ => ⟨.w, none⟩
   | .relCE cid _ | .spLoop _ cid | .spGI _ cid _ _ | .spRH _ cid _ _ _ => ⟨.w, some (cid, .w)⟩
-  | .relC cid _ | .swAI2 cid _ | .swGI cid _ _ _ | .swAH cid _ _ _ _
+  | .relC cid _ | .swAI2 cid _ | .swGI cid _ _ _ _ | .swAH cid _ _ _ _ _
   | .xwGI cid _ _ _ _ | .xwRH cid _ _ _ _ _ => ⟨.n, some (cid, .w)⟩
   | .irRel _ | .swLU _ _ | .xwLU _ _ | .gwLU _ | .gcLU _ _ _ => ⟨.r, none⟩
   | .swAI _ _ | .swCR _ _ _ | .swCW _ _ _ | .xw0 _ _ | .xwCR _ _ | .xwCW _ _ | .gwCR _
@@ -280,11 +280,11 @@ def Act.apply : Act → Sys → Sys
 /-! ### the loops of StartWatches / StopWatches and the collector's decision -/
 
 /-- first watch of `ws` that StartWatches will start: it skips a watch that exists and
-whose informer is active according to `a` -/
-def swNext (srcs : List (Wid × Nat)) (a : List Nat) : List Wid → Option (Wid × List Wid)
+whose informer is active according to `a`, or (D2 fix) that this very call started (`st`) -/
+def swNext (srcs : List (Wid × Nat)) (a : List Nat) (st : List Wid) : List Wid → Option (Wid × List Wid)
   | [] => none
   | w :: rest =>
-    if (aget w srcs).isSome && a.contains w.gvk then swNext srcs a rest else some (w, rest)
+    if (aget w srcs).isSome && (a.contains w.gvk || st.contains w) then swNext srcs a st rest else some (w, rest)
 
 /-- first watch of `ws` that StopWatches will stop: the first that exists -/
 def xwNext (srcs : List (Wid × Nat)) : List Wid → Option (Wid × Nat × List Wid)
@@ -301,9 +301,9 @@ def gcStop (cfg : Cfg) (running : List Wid) (refs : List Nat) : List Wid :=
     if cfg.fixD3 then decide (w.ty = .composed) && !refs.contains w.gvk
     else !(decide (w.ty = .composed) && refs.contains w.gvk))
 
-def swPc (cid : Nat) (a : List Nat) : Option (Wid × List Wid) → Pc
+def swPc (cid : Nat) (a : List Nat) (st : List Wid) : Option (Wid × List Wid) → Pc
   | none => .relC cid .ok
-  | some (w, rest) => .swGI cid a w rest
+  | some (w, rest) => .swGI cid a st w rest
 
 def xwPc (cid : Nat) (k : Nat) : Option (Wid × Nat × List Wid) → Pc
   | none => .relC cid (.count k true)
@@ -372,24 +372,24 @@ def next (cfg : Cfg) (s : Sys) (i : Nat) (t : Thread) (ch : Choice) : Option (Pc
     | some cid => some (.swAI cid ws, .nop)
   | .swAI cid ws => some (.swCR cid ws s.tracked, .nop)    -- a := e.infs.ActiveInformers()
   | .swCR cid ws a =>                             -- c.mx.RLock(); start := ...
-    acquire s i (.swCRrel cid ws a (swNext (srcsOf s cid) a ws).isSome)
+    acquire s i (.swCRrel cid ws a (swNext (srcsOf s cid) a [] ws).isSome)
   | .swCRrel cid ws a start =>                    -- c.mx.RUnlock(); if !start { return nil }
     if start then some (.swCW cid ws a, .nop) else some (.done .ok, .nop)
   | .swCW cid ws a =>                             -- c.mx.Lock()
     acquire s i
       (if cfg.fixD12 && stoppedOf s cid then .relC cid .notRunning
        else if cfg.fixD2 then .swAI2 cid ws
-       else swPc cid a (swNext (srcsOf s cid) a ws))
+       else swPc cid a [] (swNext (srcsOf s cid) a [] ws))
   | .swAI2 cid ws =>                              -- (D2 fix) a = e.infs.ActiveInformers()
-    some (swPc cid s.tracked (swNext (srcsOf s cid) s.tracked ws), .nop)
-  | .swGI cid a wid rest =>                       -- c.ctrl.Watch(src) → src.Start: s.infs.GetInformer
+    some (swPc cid s.tracked [] (swNext (srcsOf s cid) s.tracked [] ws), .nop)
+  | .swGI cid a st wid rest =>                    -- c.ctrl.Watch(src) → src.Start: s.infs.GetInformer
     if ch.fault then some (.relC cid .err, .getInformer wid.gvk true)
-    else some (.swAH cid a wid rest (handle s wid.gvk), .getInformer wid.gvk false)
-  | .swAH cid a wid rest h =>                     -- i.AddEventHandler(...); c.sources[wid] = src
+    else some (.swAH cid a st wid rest (handle s wid.gvk), .getInformer wid.gvk false)
+  | .swAH cid a st wid rest h =>                  -- i.AddEventHandler(...); c.sources[wid] = src; (D2 fix) started[wid] = true
     if ch.fault || aget wid.gvk s.live != some h then some (.relC cid .err, .nop)
     else
-      let a' := if cfg.fixD2 then wid.gvk :: a else a
-      some (swPc cid a' (swNext (aset wid s.nextReg (srcsOf s cid)) a' rest), .addReg cid wid h)
+      let st' := if cfg.fixD2 then wid :: st else st
+      some (swPc cid a st' (swNext (aset wid s.nextReg (srcsOf s cid)) a st' rest), .addReg cid wid h)
   -- StopWatches
   | .xw0 n ws => acquire s i (.xwLU (aget n s.ctrls) ws)
   | .xwLU o ws =>
